@@ -11,4 +11,17 @@ from props import PROPS
 print(' '.join(sorted({c['props_module'] for c in PROPS.values()} | {k['driver_exe'] for c in PROPS.values() for k in c.get('components',[]) if k.get('driver_exe')})))")
 (cd lean && lake build SafeNet $MODS) || echo "setup: lake build reported errors (checks will report them)"
 (cd harness && cargo build -q --workspace 2>/dev/null) || echo "setup: cargo build reported errors (checks will report them)"
+# components with their own build environment / target dir (e.g. the MAX_CHUNK_SIZE=400 self-encryption build)
+python3 - <<'PY'
+import json, glob, os, subprocess
+for p in sorted(glob.glob('checks/C*.json')):
+    for comp in json.load(open(p)).get('components', []):
+        if comp.get('target_dir') or comp.get('build_env'):
+            env = dict(os.environ, CARGO_NET_OFFLINE='true'); env.update(comp.get('build_env', {}))
+            cmd = ['cargo', 'build', '-q', '-p', comp['package'], '--bin', comp['bin']]
+            if comp.get('target_dir'):
+                cmd += ['--target-dir', os.path.join('/verif/harness', comp['target_dir'])]
+            print('setup: building', comp['name'], flush=True)
+            subprocess.run(cmd, cwd='/verif/harness', env=env, stderr=subprocess.DEVNULL)
+PY
 echo "setup done"
